@@ -35,6 +35,7 @@ import (
 	"github.com/talostrading/sonic"
 	"github.com/talostrading/sonic/sonicerrors"
 	"github.com/talostrading/sonic/sonicopts"
+	"github.com/talostrading/sonic/util"
 )
 
 type Stream struct {
@@ -638,6 +639,10 @@ func (s *Stream) AsyncWriteFrame(f *Frame, callback func(err error)) {
 }
 
 func (s *Stream) prepareWrite(f *Frame) {
+	// A frame occupies exactly header + declared payload on the wire. A pooled frame, or one whose payload was never
+	// set, may carry more bytes in its slice: drop them so they are neither masked nor written.
+	*f = util.ExtendSlice(*f, f.payloadOffset()+f.PayloadLength())
+
 	if s.role == RoleClient {
 		f.MaskPayload()
 	}
